@@ -29,6 +29,7 @@ import (
 )
 
 var walletNames = []string{"Wallet1", "Other"}
+
 // "acc11" and "zacc1" contain "acc1": a path naming acc1 must list neither (whole-name matching)
 var accountNames = [][]string{{"acc1", "acc11", "zacc1", "Val.1"}, {"acc1"}}
 var paths = []string{"Wallet1", "Wallet1/", "Wallet1/acc.*", "Wallet1/acc1", "Wallet1/.*1", "Other", "Nope", "", "/x", "Wallet1/["}
@@ -266,6 +267,60 @@ func ListingWithStaticChecker() {
 		for full := range w.keys {
 			vsym.Assert("L3-listed-iff-requested-matching-and-permitted", listed[full] == w.expected(full, req))
 		}
+	}
+}
+
+// ListingAfterLookupsAndSecondCreate: an account created through Dirk is looked up by name and by
+// key (as signing does), an unknown name and key are looked up too, then a second account is created:
+// the creation returns and the listing shows both.
+func ListingAfterLookupsAndSecondCreate() {
+	vsym.ForbidCrash()
+	ctx := context.Background()
+	w := newWorld(ctx)
+	w.create(ctx, "Wallet1", "acc1")
+	fetcher, err := memfetcher.New(ctx, memfetcher.WithStores([]e2wtypes.Store{w.store}), memfetcher.WithEncryptor(w.enc))
+	hc.Must(err)
+	ck := &stubs.Checker{L: w.log, Deny: func(client, account, op string) bool {
+		allowed, known := w.perm[account]
+		return !known || !allowed || op != ruler.ActionAccessAccount || client != "client1"
+	}}
+	rs := hc.NewRules(ctx, vsym.TempDir("A"))
+	ls, err := standardlister.New(ctx, standardlister.WithChecker(ck), standardlister.WithFetcher(fetcher), standardlister.WithRuler(hc.NewRuler(ctx, rs)))
+	hc.Must(err)
+	h, err := listerhandler.New(ctx, listerhandler.WithLister(ls))
+	hc.Must(err)
+	a9 := w.create(ctx, "Wallet1", "acc9")
+	hc.Must(fetcher.AddAccount(ctx, w.wallets["Wallet1"], a9))
+	switch vsym.Choose("lookup", 4) {
+	case 0:
+		_, got, ferr := fetcher.FetchAccount(ctx, "Wallet1/acc9")
+		vsym.Assert("L6-created-account-found-by-name", ferr == nil && got != nil)
+	case 1:
+		_, got, ferr := fetcher.FetchAccountByKey(ctx, a9.PublicKey().Marshal())
+		vsym.Assert("L7-created-account-found-by-key", ferr == nil && got != nil)
+	case 2:
+		_, _, ferr := fetcher.FetchAccount(ctx, "Wallet1/nope")
+		vsym.Assert("L8-unknown-name-not-found", ferr != nil)
+	default:
+		_, _, ferr := fetcher.FetchAccountByKey(ctx, make([]byte, 48))
+		vsym.Assert("L9-unknown-key-not-found", ferr != nil)
+	}
+	a8 := w.create(ctx, "Wallet1", "acc8")
+	hc.Must(fetcher.AddAccount(ctx, w.wallets["Wallet1"], a8))
+	cctx := context.WithValue(ctx, &interceptors.ClientName{}, "client1")
+	req := []string{"Wallet1"}
+	res, err := h.ListAccounts(cctx, &pb.ListAccountsRequest{Paths: req})
+	vsym.Assert("L0-listing-answers", err == nil && res != nil)
+	if err != nil || res == nil {
+		return
+	}
+	vsym.Reach("listed-after-second-create")
+	listed := map[string]bool{}
+	for _, a := range res.GetDistributedAccounts() {
+		listed[a.GetName()] = true
+	}
+	for full := range w.keys {
+		vsym.Assert("L3-listed-iff-requested-matching-and-permitted", listed[full] == w.expected(full, req))
 	}
 }
 
